@@ -201,6 +201,20 @@ struct CompliantElem : ContactElemBase {
         double peP = k.m.sys.calcPotentialEnergy(w);
         return peP - peV > 1e-9 * std::fabs(peP);
     }
+    // Hertz contact of non-spherical surfaces: PE = C*x^(5/2) with C built from the surface curvatures at the current
+    // contact point. C(q) = PE/x^(5/2) is read back from the library's own report (patch detail: deformation x).
+    bool shapeCoefficient(FCase& k, State& w, double& C, double& x) override {
+        if (pair != 2 && pair != 3) return false;
+        k.m.sys.realize(w, Stage::Velocity);
+        if (compliant->getNumContactForces(w) != 1) return false;
+        const ContactForce& f = compliant->getContactForce(w, 0);
+        ContactPatch patch;
+        if (!compliant->calcContactPatchDetailsById(w, f.getContactId(), patch) || patch.getNumDetails() != 1) return false;
+        x = patch.getContactDetail(0).getDeformation();
+        if (!(x > 0) || !(f.getPotentialEnergy() > 0)) return false;
+        C = f.getPotentialEnergy() / std::pow(x, 2.5);
+        return true;
+    }
     double reportedDissipation(FCase&, const State& s) override {
         double p = 0; int n = compliant->getNumContactForces(s);
         for (int i = 0; i < n; ++i) p += compliant->getContactForce(s, i).getPowerDissipation();
